@@ -1,6 +1,8 @@
 //! Engine `own` (C20): an instrumented element type (every construction and clone gets an id, every drop is
 //! recorded, a second drop of the same id is detected) through histories of the observable crate (exact
 //! ledger, compared with the Lean model after every call) and of the vector crates and adapters (invariants only).
+use std::sync::Arc;
+use std::task::Waker;
 use crate::common::*;
 use crate::eng_vec::flag_waker;
 use eyeball::{AsyncLock, Observable, SharedObservable, Subscriber};
@@ -262,8 +264,58 @@ fn vec_case(sink: &mut Sink, id: &str, r: &mut Rng, steps: usize) {
     sink.nontrivial();
 }
 
+/// a task that owns the subscriber it polls, and whose waker owns the task (what an executor's task looks like):
+/// once the observable is closed and the last outside handle of the task is gone, the waker list must not keep it alive
+struct OwningTask<S> { sub: std::sync::Mutex<Option<S>> }
+impl<S: Send> std::task::Wake for OwningTask<S> { fn wake(self: Arc<Self>) {} }
+
+/// W. reference cycle state -> waker -> task -> subscriber -> state (C20: nothing is leaked)
+fn waker_cycle_case(sink: &mut Sink, id: &str, shared: bool, asyncf: bool, write_between: bool, poll_after_close: bool) {
+    sink.case(id);
+    reset_registry();
+    {
+        fn poll_task<S: Stream + Unpin + Send + 'static>(task: &Arc<OwningTask<S>>, waker: &Waker) {
+            let mut cx = Context::from_waker(waker);
+            let mut g = task.sub.lock().unwrap();
+            let _ = Pin::new(g.as_mut().unwrap()).poll_next(&mut cx);
+        }
+        fn cycle<S: Stream + Unpin + Send + 'static>(sub: S, write: impl FnOnce(), drop_ob: impl FnOnce(), write_between: bool, poll_after_close: bool) {
+            let task = Arc::new(OwningTask { sub: std::sync::Mutex::new(Some(sub)) });
+            let waker = Waker::from(task.clone());
+            poll_task(&task, &waker);
+            if write_between { write(); poll_task(&task, &waker); poll_task(&task, &waker); }
+            drop_ob();
+            if poll_after_close { poll_task(&task, &waker); }
+            drop(waker);
+            drop(task);
+        }
+        match (shared, asyncf) {
+            (false, false) => { let mut ob = Observable::new(Tok::new(1)); let sub = Observable::subscribe(&ob); let p: *mut Observable<Tok> = &mut ob;
+                cycle(sub, || { Observable::set(unsafe { &mut *p }, Tok::new(2)); }, || drop(unsafe { std::ptr::read(p) }), write_between, poll_after_close); std::mem::forget(ob); }
+            (true, false) => { let ob = SharedObservable::new(Tok::new(1)); let sub = ob.subscribe(); let ob2 = ob.clone();
+                cycle(sub, move || { ob2.set(Tok::new(2)); drop(ob2); }, move || drop(ob), write_between, poll_after_close); }
+            (false, true) => { let mut ob = Observable::new_async(Tok::new(1)); let sub = Observable::subscribe_async(&ob); let p: *mut Observable<Tok, AsyncLock> = &mut ob;
+                cycle(sub, || { now(Observable::set_async(unsafe { &mut *p }, Tok::new(2))); }, || drop(unsafe { std::ptr::read(p) }), write_between, poll_after_close); std::mem::forget(ob); }
+            (true, true) => { let ob = SharedObservable::new_async(Tok::new(1)); let sub = now(ob.subscribe()); let ob2 = ob.clone();
+                cycle(sub, move || { now(ob2.set(Tok::new(2))); drop(ob2); }, move || drop(ob), write_between, poll_after_close); }
+        }
+    }
+    let live = LIVE.with(|l| l.borrow().len());
+    let d = DOUBLE.with(|d| d.get());
+    if live != 0 || d != 0 {
+        sink.oracle_fail("C20", &format!("a task that owns its subscriber was parked when the observable was dropped; after the task's last handle is gone {live} element(s) are still alive, {d} dropped twice (the closed state keeps the waker: reference cycle)"));
+    }
+    sink.line("lvecend", &format!("live={live} double={d}"));
+    sink.nontrivial();
+}
+
 pub fn run(args: &Args, sink: &mut Sink) {
     let thorough = args.tier == "thorough";
+    let mut nw = 0;
+    for shared in [false, true] { for asyncf in [false, true] { for wb in [false, true] { for pa in [false, true] {
+        nw += 1;
+        waker_cycle_case(sink, &format!("W{nw}"), shared, asyncf, wb, pa);
+    } } } }
     let mut rng = Rng(args.seed ^ 0x0A17);
     // tier `miri`: the same generators under the Miri interpreter (undefined behaviour in the library's `unsafe` blocks,
     // double frees, use after free), far fewer and shorter histories
